@@ -430,3 +430,21 @@ Proof. unfold decode. destruct (existsb is_upper_hex s); [discriminate|auto]. Qe
 
 Lemma decode_none_of_pu s : decode_pu s = None -> decode s = None.
 Proof. unfold decode. intros ->. destruct (existsb is_upper_hex s); reflexivity. Qed.
+
+(** Distinct valid IDs have distinct encodings (Encode is injective on uint64). *)
+Lemma encode_injective a b s :
+  a < 2 ^ 64 -> b < 2 ^ 64 -> encode a = Some s -> encode b = Some s -> a = b.
+Proof.
+  intros Ha Hb Ea Eb.
+  assert (Da : decode s = Some a) by (apply decode_exact; auto).
+  assert (Db : decode s = Some b) by (apply decode_exact; auto).
+  rewrite Da in Db. injection Db as ->. reflexivity.
+Qed.
+
+(** An ID has exactly one accepted spelling (Decode is injective on accepted strings). *)
+Lemma decode_injective s1 s2 n :
+  decode s1 = Some n -> decode s2 = Some n -> s1 = s2.
+Proof.
+  intros D1 D2. apply decode_exact in D1 as [_ E1]. apply decode_exact in D2 as [_ E2].
+  rewrite E1 in E2. injection E2 as ->. reflexivity.
+Qed.
